@@ -251,6 +251,10 @@ class Contract(object):
             g = merge_eval(it, lambda it2: it2.call(self.fns['pre'], vals), key=('callpre', self.name, arg_key(vals)))
             ctx.oblige('callpre', 'callpre.%s' % self.name, g)
             ctx.assume(g)
+        if 'abstract' in self.fns:
+            # functional abstraction for callers; its agreement with the body is established by the bounded native run only
+            ctx.flags.add('assumed-bounded:' + self.name)
+            return it.call(self.fns['abstract'], vals)
         if 'attrs' in self.fns:
             d = it.call(self.fns['attrs'], vals)
             for k2, v2 in d.items():
